@@ -348,6 +348,9 @@ func (w *ResponseWriter) WriteMsg(m *dns.Msg) error {
 	// A response that brings more than one OPT (a forwarder's upstream, a
 	// plugin) keeps only the one every step below works on.
 	dropShadowedOPT(m)
+	// ... and none outside the additional section, where no step below
+	// would see it.
+	dnsutil.ClearStrayOPT(m)
 
 	if !w.noedns {
 		// Get or create OPT record
